@@ -1,3 +1,859 @@
-//! C11 — not built yet.
-pub const BUILT: bool = false;
-pub fn run(_rep: &mut vx::Report) {}
+//! C11 — text extraction conserves every drawn character.
+//!
+//! Pages are hand-built with `refpdf::builder` (nothing of the library's writer is involved):
+//! one page, a Helvetica/WinAnsi simple font `/F1`, a Type0 Identity-H font `/F2` whose only
+//! Unicode information is a ToUnicode CMap (bfchar BMP, bfchar astral through surrogates,
+//! bfchar multi-character destination, bfrange, bfrange with array), a form XObject `/Fm1`
+//! that shows text and paints a nested form `/Fm2`. The page content is
+//!
+//!   BT /F1 12 Tf 1 0 0 1 72 700 Tm (Wm) Tj  <op 1> … <op n>  (Yn) Tj ET
+//!
+//! with every sequence of n <= 3 (quick) / 4 (thorough) operators from the vocabulary of the
+//! property. Operators that may not appear inside a text object (q Q cm Do, §8.2 Figure 9) are
+//! written as `ET op BT`, so every generated stream is valid; sequences that cannot be made
+//! valid (Q without q, EMC without BDC, a marked-content sequence that would straddle a text
+//! object boundary, §14.6) are skipped and counted. Open q / marked-content sequences are
+//! closed at the end.
+//!
+//! Each page is opened with the library's `PdfReader`/`PdfDocument` and extracted with
+//! `TextExtractor::extract_from_page` under: default options, every single flag flipped, every
+//! pair of flags flipped (9 boolean switches: the 8 booleans of `ExtractionOptions` plus
+//! `with_reading_order`).
+//!
+//! Oracle: multiset of non-white-space characters in `text` == multiset of non-white-space
+//! characters shown, where text inside `/Artifact` is left out unless `include_artifacts`,
+//! and the content of a `/Span` with `/ActualText` is replaced by that text (§14.9.4). Where
+//! the standard leaves the answer open (a Span whose content is empty or only artifacts) both
+//! answers are accepted. Extraction is repeated with a fresh extractor and must give the same
+//! text. `-` is not in the alphabet (documented hyphen merging), Tr is 0..2.
+use oxidize_pdf::parser::{PdfDocument, PdfReader};
+use oxidize_pdf::text::{ExtractionOptions, TextExtractor};
+use refpdf::builder::{FileBuilder, Revision, XrefForm};
+use refpdf::syntax::Obj;
+use serde_json::json;
+use std::collections::BTreeMap;
+use std::io::Cursor;
+use vx::{Ctx, Explore, Report};
+
+pub const BUILT: bool = true;
+
+// ------------------------------------------------------------------ the crafted file
+
+const TOUNICODE: &str = "/CIDInit /ProcSet findresource begin\n12 dict begin\nbegincmap\n/CIDSystemInfo << /Registry (Adobe) /Ordering (UCS) /Supplement 0 >> def\n/CMapName /Adobe-Identity-UCS def\n/CMapType 2 def\n1 begincodespacerange\n<0000> <FFFF>\nendcodespacerange\n4 beginbfchar\n<0001> <00E9>\n<0002> <4E2D>\n<0003> <D834DD1E>\n<0004> <006600660069>\nendbfchar\n2 beginbfrange\n<0010> <0012> <03B1>\n<0020> <0021> [<0416> <042F042F>]\nendbfrange\nendcmap\nCMapName currentdict /CMap defineresource pop\nend\nend\n";
+
+/// what the ToUnicode CMap above says, per 2-byte code
+fn f2_unicode(code: u16) -> &'static str {
+    match code {
+        1 => "\u{e9}",
+        2 => "\u{4e2d}",
+        3 => "\u{1d11e}",
+        4 => "ffi",
+        0x10 => "\u{3b1}",
+        0x11 => "\u{3b2}",
+        0x12 => "\u{3b3}",
+        0x20 => "\u{416}",
+        0x21 => "\u{42f}\u{42f}",
+        _ => "",
+    }
+}
+
+const FORM1_TEXT: &str = "Rs";
+const FORM2_TEXT: &str = "Tu";
+
+fn build_pdf(content: &[u8]) -> Vec<u8> {
+    let font_res = Obj::dict(vec![("F1", Obj::Ref(5, 0)), ("F2", Obj::Ref(6, 0))]);
+    let mut r = Revision::new(XrefForm::Table);
+    r.add(1, Obj::dict(vec![("Type", Obj::name("Catalog")), ("Pages", Obj::Ref(2, 0))]));
+    r.add(2, Obj::dict(vec![("Type", Obj::name("Pages")), ("Kids", Obj::Array(vec![Obj::Ref(3, 0)])), ("Count", Obj::Int(1))]));
+    r.add(
+        3,
+        Obj::dict(vec![
+            ("Type", Obj::name("Page")),
+            ("Parent", Obj::Ref(2, 0)),
+            ("MediaBox", Obj::Array(vec![Obj::Int(0), Obj::Int(0), Obj::Int(612), Obj::Int(792)])),
+            ("Resources", Obj::dict(vec![("Font", font_res.clone()), ("XObject", Obj::dict(vec![("Fm1", Obj::Ref(10, 0))]))])),
+            ("Contents", Obj::Ref(4, 0)),
+        ]),
+    );
+    r.add(4, Obj::stream(vec![], content.to_vec()));
+    r.add(5, Obj::dict(vec![("Type", Obj::name("Font")), ("Subtype", Obj::name("Type1")), ("BaseFont", Obj::name("Helvetica")), ("Encoding", Obj::name("WinAnsiEncoding"))]));
+    r.add(
+        6,
+        Obj::dict(vec![
+            ("Type", Obj::name("Font")),
+            ("Subtype", Obj::name("Type0")),
+            ("BaseFont", Obj::name("VerifSans")),
+            ("Encoding", Obj::name("Identity-H")),
+            ("DescendantFonts", Obj::Array(vec![Obj::Ref(7, 0)])),
+            ("ToUnicode", Obj::Ref(9, 0)),
+        ]),
+    );
+    r.add(
+        7,
+        Obj::dict(vec![
+            ("Type", Obj::name("Font")),
+            ("Subtype", Obj::name("CIDFontType2")),
+            ("BaseFont", Obj::name("VerifSans")),
+            ("CIDSystemInfo", Obj::dict(vec![("Registry", Obj::str(b"Adobe")), ("Ordering", Obj::str(b"Identity")), ("Supplement", Obj::Int(0))])),
+            ("FontDescriptor", Obj::Ref(8, 0)),
+            ("DW", Obj::Int(600)),
+            ("CIDToGIDMap", Obj::name("Identity")),
+        ]),
+    );
+    r.add(
+        8,
+        Obj::dict(vec![
+            ("Type", Obj::name("FontDescriptor")),
+            ("FontName", Obj::name("VerifSans")),
+            ("Flags", Obj::Int(4)),
+            ("FontBBox", Obj::Array(vec![Obj::Int(0), Obj::Int(-200), Obj::Int(1000), Obj::Int(900)])),
+            ("ItalicAngle", Obj::Int(0)),
+            ("Ascent", Obj::Int(900)),
+            ("Descent", Obj::Int(-200)),
+            ("CapHeight", Obj::Int(700)),
+            ("StemV", Obj::Int(80)),
+        ]),
+    );
+    r.add(9, Obj::stream(vec![], TOUNICODE.as_bytes().to_vec()));
+    let bbox = Obj::Array(vec![Obj::Int(0), Obj::Int(0), Obj::Int(612), Obj::Int(792)]);
+    r.add(
+        10,
+        Obj::stream(
+            vec![
+                ("Type", Obj::name("XObject")),
+                ("Subtype", Obj::name("Form")),
+                ("BBox", bbox.clone()),
+                ("Resources", Obj::dict(vec![("Font", font_res.clone()), ("XObject", Obj::dict(vec![("Fm2", Obj::Ref(11, 0))]))])),
+            ],
+            format!("BT /F1 12 Tf 1 0 0 1 300 500 Tm ({FORM1_TEXT}) Tj ET\n/Fm2 Do\n").into_bytes(),
+        ),
+    );
+    r.add(
+        11,
+        Obj::stream(
+            vec![("Type", Obj::name("XObject")), ("Subtype", Obj::name("Form")), ("BBox", bbox), ("Resources", Obj::dict(vec![("Font", font_res)]))],
+            format!("BT /F1 10 Tf 1 0 0 1 300 480 Tm ({FORM2_TEXT}) Tj ET\n").into_bytes(),
+        ),
+    );
+    let mut fb = FileBuilder::new(1);
+    fb.revisions.push(r);
+    fb.build().bytes
+}
+
+// ------------------------------------------------------------------ operator vocabulary
+
+#[derive(Clone, Copy, Debug, PartialEq)]
+enum O {
+    Tj,
+    /// Tj of the same string as the page's first run (exact overprint when positioned on it)
+    TjDup,
+    TJ(i32),
+    Quote,
+    DQuote,
+    Td(f64, f64),
+    TD(f64, f64),
+    Tm(u8),
+    TStar,
+    Tc(f64),
+    Tw(f64),
+    Tz(f64),
+    TL(f64),
+    Ts(f64),
+    Tr(u8),
+    Tf(u8),
+    Cm(u8),
+    Save,
+    Restore,
+    Do,
+    Artifact { page_level: bool },
+    Span { page_level: bool },
+    Emc,
+}
+
+fn vocab() -> Vec<O> {
+    vec![
+        O::Tj,
+        O::TjDup,
+        O::TJ(-50),   // tight kern
+        O::TJ(-500),  // wide forward gap (a word space)
+        O::TJ(1500),  // backwards: second piece overlaps the first
+        O::Quote,
+        O::DQuote,
+        O::Td(0.0, 0.0),      // back to the line start: overlapping
+        O::Td(22.0, 0.0),     // adjacent on the same line
+        O::Td(0.0, -14.0),    // next line
+        O::Td(300.0, -400.0), // far apart
+        O::TD(0.0, -14.0),
+        O::TD(22.0, 0.0),
+        O::Tm(0),
+        O::Tm(1),
+        O::Tm(2),
+        O::Tm(3),
+        O::TStar,
+        O::Tc(5.0),
+        O::Tw(10.0),
+        O::Tz(50.0),
+        O::Tz(200.0),
+        O::TL(14.0),
+        O::Ts(5.0),
+        O::Tr(0),
+        O::Tr(1),
+        O::Tr(2),
+        O::Tf(0),
+        O::Tf(1),
+        O::Cm(0),
+        O::Cm(1),
+        O::Cm(2),
+        O::Save,
+        O::Restore,
+        O::Do,
+        O::Artifact { page_level: false },
+        O::Artifact { page_level: true },
+        O::Span { page_level: false },
+        O::Span { page_level: true },
+        O::Emc,
+    ]
+}
+
+const TM: [&str; 4] = [
+    "1 0 0 1 72 650 Tm",    // identity, a new line further down
+    "0 1 -1 0 300 300 Tm",  // rotated 90 degrees
+    "-1 0 0 1 500 600 Tm",  // mirrored
+    "1 0 0 1 93.3 700 Tm",  // identity, adjacent to the first run on its baseline
+];
+const CM: [&str; 3] = ["1 0 0 1 10 -20 cm", "2 0 0 2 0 0 cm", "0 1 -1 0 400 100 cm"];
+const F1_STRINGS: [&str; 6] = ["Ab", "Cd", "Ef", "Gh", "Ij", "Kl"];
+const F2_CODES: [[u16; 2]; 4] = [[1, 2], [3, 4], [0x10, 0x11], [0x20, 0x21]];
+const SPAN_TEXT: [&str; 5] = ["Jq", "Kx", "Lz", "Pv", "Bg"];
+const HEAD: &str = "Wm";
+const TAIL: &str = "Yn";
+
+#[derive(Clone, Copy, Debug, PartialEq)]
+enum McKind {
+    Artifact,
+    Span(usize),
+}
+#[derive(Clone, Copy, Debug)]
+struct Mc {
+    kind: McKind,
+    /// text object it was opened in; None = opened between text objects
+    text_id: Option<u32>,
+}
+
+#[derive(Clone, Debug)]
+struct Run {
+    chars: String,
+    ctx: Vec<McKind>,
+}
+
+/// marked-content structure of the page in stream order (form text appears where Do paints it)
+#[derive(Clone, Debug)]
+enum Ev {
+    Open(McKind),
+    Close,
+    Run(String),
+}
+
+struct Gen {
+    out: Vec<u8>,
+    text_id: u32,
+    font: u8,
+    font_stack: Vec<u8>,
+    mc: Vec<Mc>,
+    show_idx: usize,
+    span_idx: usize,
+    runs: Vec<Run>,
+    /// every span opened, with the context it was opened in
+    spans: Vec<(usize, Vec<McKind>)>,
+    events: Vec<Ev>,
+}
+
+impl Gen {
+    fn ctx(&self) -> Vec<McKind> {
+        self.mc.iter().map(|m| m.kind).collect()
+    }
+    fn w(&mut self, s: &str) {
+        self.out.extend_from_slice(s.as_bytes());
+        self.out.push(b'\n');
+    }
+    fn run(&mut self, chars: &str) {
+        let ctx = self.ctx();
+        self.runs.push(Run { chars: chars.to_string(), ctx });
+        self.events.push(Ev::Run(chars.to_string()));
+    }
+    /// leave the text object for an operator that is not allowed inside one
+    fn leave_text(&mut self) -> Result<(), &'static str> {
+        if self.mc.iter().any(|m| m.text_id == Some(self.text_id)) {
+            return Err("marked-content sequence would straddle a text object boundary");
+        }
+        self.w("ET");
+        Ok(())
+    }
+    fn enter_text(&mut self) {
+        self.text_id += 1;
+        self.w("BT");
+    }
+    /// (string token, characters) of the next shown string under the current font
+    fn next_string(&mut self) -> (Vec<String>, Vec<String>) {
+        let k = self.show_idx;
+        self.show_idx += 1;
+        if self.font == 0 {
+            let s = F1_STRINGS[k % F1_STRINGS.len()];
+            (s.chars().map(|c| format!("({c})")).collect(), s.chars().map(|c| c.to_string()).collect())
+        } else {
+            let codes = F2_CODES[k % F2_CODES.len()];
+            (codes.iter().map(|c| format!("<{c:04X}>")).collect(), codes.iter().map(|c| f2_unicode(*c).to_string()).collect())
+        }
+    }
+    fn whole(parts: &[String]) -> String {
+        // join "(A)" "(b)" -> "(Ab)", "<0001>" "<0002>" -> "<00010002>"
+        let open = &parts[0][..1];
+        let close = if open == "(" { ")" } else { ">" };
+        let inner: String = parts.iter().map(|p| &p[1..p.len() - 1]).collect();
+        format!("{open}{inner}{close}")
+    }
+
+    fn op(&mut self, o: O) -> Result<(), &'static str> {
+        match o {
+            O::Tj => {
+                let (tok, chars) = self.next_string();
+                let t = Self::whole(&tok);
+                self.w(&format!("{t} Tj"));
+                self.run(&chars.concat());
+            }
+            O::TjDup => {
+                if self.font == 0 {
+                    self.w(&format!("({HEAD}) Tj"));
+                    self.run(HEAD);
+                } else {
+                    self.w("<00010002> Tj");
+                    self.run(&format!("{}{}", f2_unicode(1), f2_unicode(2)));
+                }
+            }
+            O::TJ(k) => {
+                let (tok, chars) = self.next_string();
+                self.w(&format!("[{} {k} {}] TJ", tok[0], tok[1]));
+                self.run(&chars.concat());
+            }
+            O::Quote => {
+                let (tok, chars) = self.next_string();
+                let t = Self::whole(&tok);
+                self.w(&format!("{t} '"));
+                self.run(&chars.concat());
+            }
+            O::DQuote => {
+                let (tok, chars) = self.next_string();
+                let t = Self::whole(&tok);
+                self.w(&format!("1 0.5 {t} \""));
+                self.run(&chars.concat());
+            }
+            O::Td(x, y) => self.w(&format!("{x} {y} Td")),
+            O::TD(x, y) => self.w(&format!("{x} {y} TD")),
+            O::Tm(i) => self.w(TM[i as usize]),
+            O::TStar => self.w("T*"),
+            O::Tc(v) => self.w(&format!("{v} Tc")),
+            O::Tw(v) => self.w(&format!("{v} Tw")),
+            O::Tz(v) => self.w(&format!("{v} Tz")),
+            O::TL(v) => self.w(&format!("{v} TL")),
+            O::Ts(v) => self.w(&format!("{v} Ts")),
+            O::Tr(v) => self.w(&format!("{v} Tr")),
+            O::Tf(f) => {
+                self.font = f;
+                self.w(if f == 0 { "/F1 12 Tf" } else { "/F2 9 Tf" });
+            }
+            O::Cm(i) => {
+                self.leave_text()?;
+                self.w(CM[i as usize]);
+                self.enter_text();
+            }
+            O::Save => {
+                self.leave_text()?;
+                self.w("q");
+                self.font_stack.push(self.font);
+                self.enter_text();
+            }
+            O::Restore => {
+                let Some(f) = self.font_stack.pop() else { return Err("Q without q") };
+                self.leave_text()?;
+                self.w("Q");
+                self.font = f; // the font is part of the graphics state (§8.4.1, Table 52)
+                self.enter_text();
+            }
+            O::Do => {
+                self.leave_text()?;
+                self.w("/Fm1 Do");
+                // the forms set their own font inside the implicit q/Q of Do
+                self.run(FORM1_TEXT);
+                self.run(FORM2_TEXT);
+                self.enter_text();
+            }
+            O::Artifact { page_level } => {
+                if page_level {
+                    self.leave_text()?;
+                    self.w("/Artifact <</Type /Pagination>> BDC");
+                    self.mc.push(Mc { kind: McKind::Artifact, text_id: None });
+                    self.events.push(Ev::Open(McKind::Artifact));
+                    self.enter_text();
+                } else {
+                    self.w("/Artifact <</Type /Pagination>> BDC");
+                    self.mc.push(Mc { kind: McKind::Artifact, text_id: Some(self.text_id) });
+                    self.events.push(Ev::Open(McKind::Artifact));
+                }
+            }
+            O::Span { page_level } => {
+                let idx = self.span_idx;
+                self.span_idx += 1;
+                let ctx = self.ctx();
+                self.spans.push((idx, ctx));
+                let bdc = format!("/Span <</ActualText ({})>> BDC", SPAN_TEXT[idx % SPAN_TEXT.len()]);
+                if page_level {
+                    self.leave_text()?;
+                    self.w(&bdc);
+                    self.mc.push(Mc { kind: McKind::Span(idx), text_id: None });
+                    self.events.push(Ev::Open(McKind::Span(idx)));
+                    self.enter_text();
+                } else {
+                    self.w(&bdc);
+                    self.mc.push(Mc { kind: McKind::Span(idx), text_id: Some(self.text_id) });
+                    self.events.push(Ev::Open(McKind::Span(idx)));
+                }
+            }
+            O::Emc => {
+                let Some(top) = self.mc.last().copied() else { return Err("EMC without BDC") };
+                if top.text_id.is_none() {
+                    self.leave_text()?;
+                    self.w("EMC");
+                    self.mc.pop();
+                    self.events.push(Ev::Close);
+                    self.enter_text();
+                } else {
+                    // opened in this text object (an inline sequence never survives its text object)
+                    self.w("EMC");
+                    self.mc.pop();
+                    self.events.push(Ev::Close);
+                }
+            }
+        }
+        Ok(())
+    }
+}
+
+struct Page {
+    content: Vec<u8>,
+    runs: Vec<Run>,
+    spans: Vec<(usize, Vec<McKind>)>,
+    events: Vec<Ev>,
+}
+
+fn generate(ops: &[O]) -> Result<Page, &'static str> {
+    let mut g = Gen { out: Vec::new(), text_id: 0, font: 0, font_stack: Vec::new(), mc: Vec::new(), show_idx: 0, span_idx: 0, runs: Vec::new(), spans: Vec::new(), events: Vec::new() };
+    g.w("BT");
+    g.w("/F1 12 Tf");
+    g.w("1 0 0 1 72 700 Tm");
+    g.w(&format!("({HEAD}) Tj"));
+    g.run(HEAD);
+    for o in ops {
+        g.op(*o)?;
+    }
+    // the closing run, in whatever font is current
+    if g.font == 0 {
+        g.w(&format!("({TAIL}) Tj"));
+        g.run(TAIL);
+    } else {
+        g.w("<00120003> Tj");
+        g.run(&format!("{}{}", f2_unicode(0x12), f2_unicode(3)));
+    }
+    // close what is open: inline sequences, the text object, page-level sequences, q
+    while g.mc.last().map(|m| m.text_id.is_some()).unwrap_or(false) {
+        g.w("EMC");
+        g.mc.pop();
+        g.events.push(Ev::Close);
+    }
+    g.w("ET");
+    while g.mc.pop().is_some() {
+        g.w("EMC");
+        g.events.push(Ev::Close);
+    }
+    for _ in 0..g.font_stack.len() {
+        g.w("Q");
+    }
+    Ok(Page { content: g.out, runs: g.runs, spans: g.spans, events: g.events })
+}
+
+// ------------------------------------------------------------------ expected multisets
+
+type Bag = BTreeMap<char, i64>;
+
+fn bag_of(s: &str) -> Bag {
+    let mut b = Bag::new();
+    for ch in s.chars().filter(|c| !c.is_whitespace()) {
+        *b.entry(ch).or_insert(0) += 1;
+    }
+    b
+}
+fn bag_add(a: &mut Bag, b: &Bag) {
+    for (k, v) in b {
+        *a.entry(*k).or_insert(0) += v;
+    }
+}
+fn bag_diff(got: &Bag, want: &Bag) -> (String, String) {
+    let mut missing = String::new();
+    let mut extra = String::new();
+    let keys: std::collections::BTreeSet<char> = got.keys().chain(want.keys()).copied().collect();
+    for k in keys {
+        let d = got.get(&k).copied().unwrap_or(0) - want.get(&k).copied().unwrap_or(0);
+        for _ in 0..d.abs().min(6) {
+            if d < 0 {
+                missing.push(k)
+            } else {
+                extra.push(k)
+            }
+        }
+    }
+    (missing, extra)
+}
+
+/// (characters that must be there, optional groups where the standard leaves it open)
+fn expected(page: &Page, include_artifacts: bool) -> (Bag, Vec<Bag>) {
+    let mut base = Bag::new();
+    let mut optional = Vec::new();
+    let outermost_span = |ctx: &[McKind]| ctx.iter().position(|k| matches!(k, McKind::Span(_)));
+    for r in &page.runs {
+        match outermost_span(&r.ctx) {
+            Some(_) => {} // replaced by the span's ActualText, accounted for below
+            None => {
+                if include_artifacts || !r.ctx.contains(&McKind::Artifact) {
+                    bag_add(&mut base, &bag_of(&r.chars));
+                }
+            }
+        }
+    }
+    for (idx, ctx) in &page.spans {
+        if outermost_span(ctx).is_some() {
+            continue; // nested in another ActualText span: the outer replacement covers it
+        }
+        if ctx.contains(&McKind::Artifact) && !include_artifacts {
+            continue; // the whole span is inside an artifact
+        }
+        let text = bag_of(SPAN_TEXT[idx % SPAN_TEXT.len()]);
+        // runs replaced by this span, split by whether an artifact lies between span and run
+        let mut real = 0;
+        let mut artifact_only = 0;
+        for r in &page.runs {
+            if let Some(p) = r.ctx.iter().position(|k| *k == McKind::Span(*idx)) {
+                if outermost_span(&r.ctx) == Some(p) {
+                    if r.ctx[p..].contains(&McKind::Artifact) && !include_artifacts {
+                        artifact_only += 1;
+                    } else {
+                        real += 1;
+                    }
+                }
+            }
+        }
+        let _ = artifact_only;
+        if real > 0 {
+            bag_add(&mut base, &text);
+        } else {
+            // empty span, or a span containing nothing but artifacts: whether its replacement
+            // text belongs to the page text is not defined — both answers are accepted
+            optional.push(text);
+        }
+    }
+    (base, optional)
+}
+
+/// Signature of known finding KF-C11-1 — NOT part of the oracle. The extractor keeps a single
+/// pending ActualText slot: a nested Span with ActualText overwrites the enclosing one, so the
+/// enclosing replacement text is never produced, runs shown before the inner Span are lost, and
+/// runs shown after the inner EMC (still inside the outer Span) come out as ordinary text.
+fn nested_actualtext_defect_bag(page: &Page, include_artifacts: bool) -> Bag {
+    let mut bag = Bag::new();
+    let mut stack: Vec<McKind> = Vec::new();
+    // (span index, stack depth before its push, populated)
+    let mut pending: Option<(usize, usize, bool)> = None;
+    for ev in &page.events {
+        match ev {
+            Ev::Open(k) => {
+                if let McKind::Span(i) = k {
+                    pending = Some((*i, stack.len(), false));
+                }
+                stack.push(*k);
+            }
+            Ev::Run(chars) => {
+                let in_artifact = stack.contains(&McKind::Artifact);
+                if in_artifact && !include_artifacts {
+                    continue;
+                }
+                match pending.as_mut() {
+                    Some(p) => p.2 = true,
+                    None => bag_add(&mut bag, &bag_of(chars)),
+                }
+            }
+            Ev::Close => {
+                let depth = stack.len();
+                stack.pop();
+                if let Some((i, d, populated)) = pending {
+                    if d + 1 == depth {
+                        pending = None;
+                        let in_artifact = stack.contains(&McKind::Artifact);
+                        if populated && (!in_artifact || include_artifacts) {
+                            bag_add(&mut bag, &bag_of(SPAN_TEXT[i % SPAN_TEXT.len()]));
+                        }
+                    }
+                }
+            }
+        }
+    }
+    bag
+}
+
+fn acceptable(got: &Bag, base: &Bag, optional: &[Bag]) -> bool {
+    let n = optional.len().min(10);
+    for mask in 0u32..(1 << n) {
+        let mut want = base.clone();
+        for (i, o) in optional.iter().enumerate().take(n) {
+            if mask & (1 << i) != 0 {
+                bag_add(&mut want, o);
+            }
+        }
+        want.retain(|_, v| *v != 0);
+        let mut g = got.clone();
+        g.retain(|_, v| *v != 0);
+        if g == want {
+            return true;
+        }
+    }
+    false
+}
+
+// ------------------------------------------------------------------ options
+
+const FLAGS: [&str; 9] = ["preserve_layout", "sort_by_position=false", "detect_columns", "merge_hyphenated=false", "track_space_decisions", "reconstruct_paragraphs", "include_artifacts", "reorder_columns", "reading_order"];
+
+fn options(mask: u32) -> (ExtractionOptions, bool) {
+    let mut o = ExtractionOptions::default();
+    let on = |i: u32| mask & (1 << i) != 0;
+    if on(0) {
+        o.preserve_layout = true;
+    }
+    if on(1) {
+        o.sort_by_position = false;
+    }
+    if on(2) {
+        o.detect_columns = true;
+    }
+    if on(3) {
+        o.merge_hyphenated = false;
+    }
+    if on(4) {
+        o.track_space_decisions = true;
+    }
+    if on(5) {
+        o.reconstruct_paragraphs = true;
+    }
+    if on(6) {
+        o.include_artifacts = true;
+    }
+    if on(7) {
+        o.reorder_columns = true;
+    }
+    (o, on(8))
+}
+fn flag_names(mask: u32) -> String {
+    let v: Vec<&str> = (0..9).filter(|i| mask & (1 << i) != 0).map(|i| FLAGS[i as usize]).collect();
+    if v.is_empty() {
+        "defaults".into()
+    } else {
+        v.join("+")
+    }
+}
+/// defaults, every single flag, every pair (46 combinations)
+fn masks(max_flips: u32) -> Vec<u32> {
+    let mut v = vec![0u32];
+    if max_flips >= 1 {
+        for i in 0..9 {
+            v.push(1 << i);
+        }
+    }
+    if max_flips >= 2 {
+        for i in 0..9 {
+            for j in i + 1..9 {
+                v.push((1 << i) | (1 << j));
+            }
+        }
+    }
+    v
+}
+
+fn extract(doc: &PdfDocument<Cursor<Vec<u8>>>, mask: u32) -> Result<String, String> {
+    let (o, ro) = options(mask);
+    let r = vx::guard(|| {
+        let mut ex = TextExtractor::with_options(o).with_reading_order(ro);
+        ex.extract_from_page(doc, 0).map(|t| t.text).map_err(|e| e.to_string())
+    });
+    match r {
+        Ok(x) => x,
+        Err(p) => Err(format!("panic: {p}")),
+    }
+}
+
+// ------------------------------------------------------------------ one page through every option set
+
+fn features(ops: &[O], page: &Page) -> String {
+    let mut f = Vec::new();
+    if !page.spans.is_empty() {
+        f.push("actualtext");
+    }
+    if ops.iter().any(|o| matches!(o, O::Artifact { .. })) {
+        f.push("artifact");
+    }
+    if ops.iter().any(|o| matches!(o, O::Do)) {
+        f.push("form");
+    }
+    if ops.iter().any(|o| matches!(o, O::Tf(1))) {
+        f.push("type0");
+    }
+    f.join("+")
+}
+
+fn check_page(c: &mut Ctx, ops: &[O], masks: &[u32]) {
+    c.input(vx::h64(&format!("{ops:?}")));
+    let page = match generate(ops) {
+        Ok(p) => p,
+        Err(why) => {
+            c.outcome(vx::h64(&("invalid", why)));
+            return;
+        }
+    };
+    c.nontrivial();
+    let bytes = build_pdf(&page.content);
+    let doc = match vx::guard(|| PdfReader::new(Cursor::new(bytes)).map(PdfDocument::new).map_err(|e| e.to_string())) {
+        Ok(Ok(d)) => d,
+        Ok(Err(e)) => {
+            c.fail("C11/MACHINERY-crafted-file-does-not-open", format!("ops={ops:?}: {e}"));
+            return;
+        }
+        Err(p) => {
+            c.fail("C11/reader-panics-on-crafted-file", format!("ops={ops:?}: {p}"));
+            return;
+        }
+    };
+    let mut classes: Vec<(u32, u8)> = Vec::new();
+    let feat = features(ops, &page);
+    let mut default_text = String::new();
+    for &mask in masks {
+        let include_artifacts = mask & (1 << 6) != 0;
+        let (base, optional) = expected(&page, include_artifacts);
+        let text = match extract(&doc, mask) {
+            Ok(t) => t,
+            Err(e) => {
+                let key = if e.starts_with("panic") { format!("C11/extraction-panics@{}", vx::panic_site(&e)) } else { "C11/extraction-returns-error".to_string() };
+                c.fail(key, format!("ops={ops:?} options={}: {e}; content={}", flag_names(mask), vx::show_bytes(&page.content, 300)));
+                classes.push((mask, 9));
+                continue;
+            }
+        };
+        if mask == 0 {
+            default_text = text.clone();
+        }
+        let got = bag_of(&text);
+        if !acceptable(&got, &base, &optional) {
+            let (missing, extra) = bag_diff(&got, &base);
+            let kind = match (missing.is_empty(), extra.is_empty()) {
+                (false, true) => "lost",
+                (true, false) => "extra",
+                _ => "lost-and-extra",
+            };
+            // the layout family an option set belongs to: flat, fragment-based
+            let path = if mask & 1 != 0 {
+                "preserve_layout"
+            } else if mask & (1 << 7) != 0 {
+                "reorder_columns"
+            } else if mask & (1 << 8) != 0 {
+                "reading_order"
+            } else {
+                "flat"
+            };
+            let nested_spans = page.spans.iter().any(|(_, ctx)| ctx.iter().any(|k| matches!(k, McKind::Span(_))));
+            let key = if nested_spans && got == nested_actualtext_defect_bag(&page, include_artifacts) {
+                "C11/nested-actualtext-inner-span-discards-outer-replacement".to_string()
+            } else {
+                format!("C11/characters-{kind}[{path}][{feat}]")
+            };
+            c.fail(
+                key,
+                format!("ops={ops:?} options={}: missing={missing:?} extra={extra:?} text={text:?} content={}", flag_names(mask), vx::show_bytes(&page.content, 400)),
+            );
+            classes.push((mask, 1));
+        } else {
+            classes.push((mask, 0));
+        }
+        // determinism: a fresh extractor gives the same text
+        if mask == 0 || mask.count_ones() == 1 {
+            match extract(&doc, mask) {
+                Ok(t2) if t2 == text => {}
+                other => c.fail("C11/extraction-not-deterministic", format!("ops={ops:?} options={}: first={text:?} second={other:?}", flag_names(mask))),
+            }
+        }
+    }
+    c.add_evaluations(masks.len() as u64 - 1);
+    c.outcome(vx::h64(&(bag_of(&default_text), classes.iter().filter(|x| x.1 != 0).count())));
+    if c.want_sample() {
+        c.sample(json!({"ops": format!("{ops:?}"), "content": String::from_utf8_lossy(&page.content), "default_text": default_text, "option_sets": masks.len()}));
+    }
+}
+
+pub fn run(rep: &mut Report) {
+    let thorough = rep.tier.is_thorough();
+    rep.rule(
+        "a case = one operator sequence (every sequence over the 40-entry vocabulary up to the tier's length) placed between a leading and a closing run, \
+         extracted under every option set (defaults, each of 9 switches flipped, each pair; evaluations count option sets); \
+         non-trivial = the sequence yields a valid content stream (always >= 2 shown runs); distinct input = distinct sequence",
+    );
+    rep.assume("refpdf::builder writes the crafted file (validated at start with refpdf::file::validate); the expected characters come from the generator, which knows every string it wrote and the ToUnicode CMap it wrote");
+    rep.assume("ActualText replaces the whole content of its marked-content sequence (ISO 32000-1 14.9.4), the outermost one wins; /Artifact content is omitted unless include_artifacts (option's documentation)");
+    rep.assume("a Span with ActualText whose content is empty or consists only of artifacts may or may not contribute its text (not defined) — both accepted");
+
+    // machinery: the crafted file is valid and refpdf reads back the content it was given
+    let probe = generate(&[O::Span { page_level: true }, O::Tf(1), O::Do]).expect("probe sequence is valid");
+    let bytes = build_pdf(&probe.content);
+    let issues = refpdf::file::validate(&bytes);
+    if !issues.is_empty() {
+        rep.machinery_error(format!("crafted file fails refpdf's strict validator: {issues:?}"));
+    }
+    match refpdf::content::parse_content_strict(&probe.content) {
+        Ok((_, iss)) if iss.is_empty() => {}
+        other => rep.machinery_error(format!("crafted content stream is not valid: {other:?}")),
+    }
+
+    let voc = vocab();
+    rep.note("vocabulary_size", json!(voc.len()));
+    let all_masks = masks(2);
+    rep.note("option_sets", json!(all_masks.len()));
+
+    // ---- seq: sequences of <= 3 operators x all 46 option sets
+    {
+        let voc = voc.clone();
+        let m = all_masks.clone();
+        rep.explore("seq3", Explore::full(), move |c: &mut Ctx| {
+            let len = c.choose("len", 4);
+            let mut ops = Vec::with_capacity(len);
+            for _ in 0..len {
+                ops.push(voc[c.choose("op", voc.len())]);
+            }
+            check_page(c, &ops, &m);
+        });
+    }
+    // ---- seq4 (thorough): sequences of exactly 4 operators x defaults and every single flag
+    if thorough {
+        let voc = voc.clone();
+        let m = masks(1);
+        rep.explore("seq4", Explore::full(), move |c: &mut Ctx| {
+            let mut ops = Vec::with_capacity(4);
+            for _ in 0..4 {
+                ops.push(voc[c.choose("op", voc.len())]);
+            }
+            check_page(c, &ops, &m);
+        });
+    }
+}
